@@ -89,7 +89,7 @@ func vlAccess(tok string) []subscriber.AccessType {
 	return nil
 }
 
-// l2gw G {name gpol R {sv cv rpol acc}} Q {s c}
+// l2gw G {name gpol gacc R {sv cv rpol acc}}   gacc = l: group-level access-types [l2gw], - : none Q {s c}
 func vlCase(f []string) (res string) {
 	defer func() {
 		if r := recover(); r != nil {
@@ -104,9 +104,12 @@ func vlCase(f []string) (res string) {
 	sg := &subscriber.SubscriberGroupsConfig{Groups: map[string]*subscriber.SubscriberGroup{}}
 	for i := 0; i < ng; i++ {
 		name := vlDecode(f[p])
-		g := &subscriber.SubscriberGroup{AAAPolicy: vlDecode(f[p+1])} // access-types are declared per range
-		nr, _ := strconv.Atoi(f[p+2])
-		p += 3
+		g := &subscriber.SubscriberGroup{AAAPolicy: vlDecode(f[p+1])}
+		if f[p+2] == "l" {
+			g.AccessTypes = []subscriber.AccessType{subscriber.AccessTypeL2GW}
+		}
+		nr, _ := strconv.Atoi(f[p+3])
+		p += 4
 		for j := 0; j < nr; j++ {
 			vr := subscriber.VLANRange{SVLAN: vlDecode(f[p]), CVLAN: vlDecode(f[p+1]), AccessTypes: vlAccess(f[p+3])}
 			if pol := vlDecode(f[p+2]); pol != "" {
